@@ -224,6 +224,8 @@ def check_linear_combinations(ctx, cirq, sympy, n):
         coefs = [rng.choice([2, 3, -1, 0.5, a, 1j]) for _ in exps]
         vals = rng.choice([{'a': 0.5, 'b': 0.5}, {'a': 0.25, 'b': 0.5}, {'a': 0.0, 'b': 0.5}, {'a': rng.uniform(-1, 1), 'b': rng.uniform(-1, 1)}])
         sub = lambda e: complex(sympy.sympify(e).subs({a: vals['a'], b: vals['b']}))
+        if any(abs(sub(c)) < 1e-12 for c in coefs):
+            continue  # (a term with coefficient 0 disappears from the combination, and with it the qubits it named: the zero operator has no shape)
         want = sum(sub(c) * cirq.unitary(fam ** float(sub(e).real)) for c, e in zip(coefs, exps))
         for kind in ('gates', 'operations'):
             terms = {}
